@@ -248,7 +248,7 @@ pub fn run(cfg: &Cfg, rep: &mut Report) {
         }
         let (w, k): (&[u8], K) = *rng.pick(&[
             (&b"INF"[..], K::Inf), (b"INFinity", K::Inf), (b"NINF", K::Ninf), (b"NINFinity", K::Ninf), (b"NAN", K::Nan), (b"MAX", K::Max), (b"MAXimum", K::Max), (b"MIN", K::Min), (b"MINimum", K::Min),
-            (b"INFI", K::No), (b"INFINIT", K::No), (b"NIN", K::No), (b"NA", K::No), (b"NANN", K::No), (b"MAXIM", K::No), (b"INFINITY1", K::No), (b"DEF", K::No), (b"ON", K::No), (b"PINF", K::No), (b"INFINITYX", K::No),
+            (b"INFI", K::No), (b"INFINIT", K::No), (b"NIN", K::No), (b"NA", K::No), (b"NANN", K::No), (b"MAXIM", K::No), (b"INFINITY1", K::No), (b"MAX1", K::No), (b"MIN1", K::No), (b"INF1", K::No), (b"NINF1", K::No), (b"NAN1", K::No), (b"MAXIMUM1", K::No), (b"MAX2", K::No), (b"MAX01", K::No), (b"DEF", K::No), (b"ON", K::No), (b"PINF", K::No), (b"INFINITYX", K::No),
         ]);
         let s = random_case(rng, w);
         bump(ctx, 2);
